@@ -5,6 +5,8 @@ from . import c04
 
 
 def run(check, pool, Task):
+    from . import validate
+    validate.apply(check, ['rtree'])
     thorough = check.tier == 'thorough'
     cap = 3000 if thorough else 900
     check.bounds.update({'get_bounds': 'all 16 present/omitted patterns of the four slice ends x index/no index, scalar instead of slice, step; key values and total extent '
